@@ -1187,21 +1187,24 @@ func (f *Flooder) markSleepCmdSeen(originAgent identity.AgentID, commandID uint6
 // HandleSleepCommand processes an incoming SLEEP_COMMAND frame.
 // Returns true if the command was new and should be processed.
 func (f *Flooder) HandleSleepCommand(fromPeer identity.AgentID, cmd *protocol.SleepCommand) bool {
-	if !f.markSleepCmdSeen(cmd.OriginAgent, cmd.CommandID, fromPeer) {
-		return false
-	}
-
-	if containsAgent(cmd.SeenBy, f.localID) {
-		return false
-	}
-
-	// Verify signature if signing key is configured
+	// Verify signature if signing key is configured. This comes before the seen
+	// cache is touched: a frame that fails verification must leave no trace,
+	// otherwise a forged frame could use up the (origin, command ID) of a
+	// genuine command and suppress it.
 	if err := f.verifySleepCommand(cmd); err != nil {
 		f.logger.Warn("sleep command rejected",
 			"origin", cmd.OriginAgent.ShortString(),
 			"command_id", cmd.CommandID,
 			"from_peer", fromPeer.ShortString(),
 			logging.KeyError, err)
+		return false
+	}
+
+	if !f.markSleepCmdSeen(cmd.OriginAgent, cmd.CommandID, fromPeer) {
+		return false
+	}
+
+	if containsAgent(cmd.SeenBy, f.localID) {
 		return false
 	}
 
@@ -1220,21 +1223,22 @@ func (f *Flooder) HandleSleepCommand(fromPeer identity.AgentID, cmd *protocol.Sl
 // HandleWakeCommand processes an incoming WAKE_COMMAND frame.
 // Returns true if the command was new and should be processed.
 func (f *Flooder) HandleWakeCommand(fromPeer identity.AgentID, cmd *protocol.WakeCommand) bool {
-	if !f.markSleepCmdSeen(cmd.OriginAgent, cmd.CommandID, fromPeer) {
-		return false
-	}
-
-	if containsAgent(cmd.SeenBy, f.localID) {
-		return false
-	}
-
-	// Verify signature if signing key is configured
+	// Verify signature if signing key is configured, before the seen cache is
+	// touched (see HandleSleepCommand).
 	if err := f.verifyWakeCommand(cmd); err != nil {
 		f.logger.Warn("wake command rejected",
 			"origin", cmd.OriginAgent.ShortString(),
 			"command_id", cmd.CommandID,
 			"from_peer", fromPeer.ShortString(),
 			logging.KeyError, err)
+		return false
+	}
+
+	if !f.markSleepCmdSeen(cmd.OriginAgent, cmd.CommandID, fromPeer) {
+		return false
+	}
+
+	if containsAgent(cmd.SeenBy, f.localID) {
 		return false
 	}
 
